@@ -98,7 +98,20 @@ def monitor_c01(ctx):
     cross = [{'define': 'f = n => n + 1 + 1 + 1 + 1 + 1 + 1', 'call': 'f(1)', 'N': 4},
              {'define': 'g = l => map(l, v => v * 2)', 'call': 'g([1, 2, 3, 4, 5])', 'N': 6}]
     b = _run('c01_cross', 'c01_cross', cross, 'a lambda defined by an earlier eval on a shared names mapping, invoked by a later eval with budget N')
-    return _merge('c01', [a, b])
+    SC = [{'src': 'l | filter(v => v > 2)', 'names': {'l': [1, 2, 3, 4, 5, 6, 7, 8]}},
+          {'src': 'filter(l, v => v + 0 > 2) | len', 'names': {'l': [1, 2, 3, 4, 5, 6, 7, 8]}},
+          {'src': 'map(l, v => v * 2 + 1)', 'names': {'l': [1, 2, 3, 4, 5, 6]}}, {'src': 'sorted(l, v => 0 - v)', 'names': {'l': [3, 1, 2, 5, 4]}},
+          {'src': 'reduce(l, (a, b) => a + b * 2)', 'names': {'l': [1, 2, 3, 4, 5]}},
+          {'src': 'try_apply(w => filter(l, v => v > 2), 0); 1 + 1 + 1', 'names': {'l': [1, 2, 3, 4, 5, 6, 7, 8]}},
+          {'src': 'f(1) + f(2)', 'astfns': [['f', ['n'], 'a = n + 1\na + n + 1']]},
+          {'src': 'map(l, v => f(v))', 'astfns': [['f', ['n'], 'a = n + 1\na * 2']], 'names': {'l': [1, 2, 3, 4, 5, 6, 7, 8, 9, 10]}},
+          {'src': 'g = v => v + 1 + 1; [g(1), g(2), g(3)]'}, {'src': 'x = 0; x += 1; x += 1; x += 1; [x, x + 1, x + 2]'},
+          {'src': 'a = 1 + 1 + 1 + 1; sub("1"); b = a + 1 + 1 + 1 + 1 + 1 + 1 + 1; [a, b, a + b + 1 + 1 + 1]', 'reenter': True},
+          {'src': 'map(l, v => [sub("2 + 2"), v + 1 + 1][1])', 'reenter': True, 'names': {'l': [1, 2, 3, 4, 5, 6]}}]
+    c = _run('c01_scen', 'c01_scen', [{'scenarios': [x]} for x in SC],
+             'budget exactness by bisection on ONE parser (needs K: below K the ops-limit error, from K on the identical result, repeatedly): '
+             'limits striking inside filter / map / sorted / reduce callbacks, re-used ast_names LambdaOp objects, a host callable re-entering eval')
+    return _merge('c01', [a, b, c])
 
 
 # ------------------------------------------------------------------ C02
@@ -170,7 +183,11 @@ def monitor_c03(ctx):
                                                       ['sorted([c], v => push(v, 1))', ['list']], ['filter([c], v => push(v, 1))', ['list']],
                                                       # index assignment through a missing intermediate key / a multi-step target
                                                       ['c["fresh"]["x"] = 1', ['dict']], ['c["fresh"]["x"]["y"] = 1', ['dict']], ['c["fresh"][0] = 1', ['dict']],
-                                                      ['c["fresh"]["x"] += 1', ['dict']], ['get(c, "fresh", 0); c["fresh"] = 1', ['dict']]]}],
+                                                      ['c["fresh"]["x"] += 1', ['dict']], ['get(c, "fresh", 0); c["fresh"] = 1', ['dict']],
+                                                      # the right-hand side / key of an index assignment itself adds to the container; an element extended by the compound form
+                                                      ['c["outer"] = __setitem__(c, "inner", 1)', []], ['c["o"] = try_apply(w => __setitem__(c, "i", 1), 0)', []],
+                                                      ['c[__setitem__(c, "i", "j")] = 1', []], ['c["o"] += try_apply(w => __setitem__(c, "i", 1), 0)', []],
+                                                      ['c[0] = push(c, 1)', []], ['c["0"] += [3]', ['dict']], ['c[0] += [3]', ['list']], ['c["0"] *= [3]', []]]}],
              'each element-adding operation on lists and dicts of exactly 10000 and 10001 elements: ParserError and container unchanged')
     return _merge('c03', [a, b])
 
@@ -188,6 +205,10 @@ def monitor_c04(ctx):
     for prec in (90, 60, 5):
         pays.append({'ctxprec': prec, 'srcs': ['1 / 3', 'a * a', 'a * a * a', '2 ** 0.5', 'a / 7', 'x = a; x *= a; x', 'sum([1 / 3, 1 / 3])', 'round(a / 3, 40)',
                                                'b * b * b * b', '(1 / 3) * 3', 'l = [a]; l[0] *= a; l']})
+    for seq in (['sum([1, None])', '1 / 3', '(1 / 7) * (1 / 7)', 'a * a'], ['sum(["x", 1])', 'sum([1, None])', '2 / 3', '2 ** 0.5'],
+                ['0 ** 0', '1 / 3', '1.5 * (2 / 7)'], ['10 ** 1000000', '1 / 3'], ['1 / 0', '1 / 3'], ['round(1, 5000)', '1 / 3', 'a * a * a'],
+                ['int("x")', '1 / 3'], ['max([])', '1 / 7'], ['float("1e400")', '1 / 3'], ['[1, 2][5]', '1 / 3'], ['2 ** 0.5', '1 / 3']):
+        pays.append({'poison_seq': seq})
     return _run('c04', 'c04', pays, 'numeric expression trees / compound assignments / numeric builtins over host ints, bools, Decimals: type of the '
                 'result of * ** *=, digit count of every arithmetic node and numeric builtin vs max(28, 1 + widest numeric argument)')
 
@@ -204,6 +225,9 @@ ADVERSARIAL = [('(a+)+$', "('a' * 28 + 'b')"), ('(a|aa)+$', "('a' * 40 + 'b')"),
 # patterns that are slow to COMPILE (tens of milliseconds: long keyword alternations) and then backtrack catastrophically:
 # whatever the library does with the compile time, the match phase must stay under its timeout
 _BIGALT = '|'.join('kw%04d' % i for i in range(3000))
+# patterns / subjects aimed at helper code AROUND the engine call (pre-processing of the pattern text, per-line retries)
+ADVERSARIAL += [('/' + '\\' * 60, "('abcdefghijklm')"), ('/' + '\\' * 61 + '/!', "('abc')"), ('/' + '\\/' * 40 + '!', "('abc')"),
+                ('(' * 40 + 'a' + ')' * 40 + '$', "('a' * 30)"), ('[' + '\\]' * 50 + ']+$', "(']' * 40 + '!')")]
 ADVERSARIAL += [('(?:%s)|(a+)+$' % _BIGALT, "('a' * 32 + '!')"), ('(?:%s)x|(a|aa)+$' % _BIGALT, "('a' * 45 + '!')")]
 
 
@@ -220,6 +244,11 @@ def monitor_c05(ctx):
         for fn in ('match', 'match_groups', 'match_all'):
             pays.append({'fn': fn, 'pattern': cat[0], 'subject_expr': cat[1], 'flags': fl})
             pays.append({'fn': fn, 'pattern': 'a', 'subject_expr': "('a')", 'flags': fl})
+    # many lines, each costing the engine a little: the budget is per CALL, not per line
+    for pat, line in (('^(a|a)+$', "a" * 16 + '!'), ('^(.*?,){8}x', ',' * 17 + '!'), ('(a|aa)+$', 'a' * 22 + '!')):
+        for fl in (['m'], ['im'], ['ms'], []):
+            for fn in ('match_all', 'match', 'match_groups'):
+                pays.append({'fn': fn, 'pattern': pat, 'subject_expr': "(%r * 500)" % (line + '\n'), 'flags': fl})
     n = sz(ctx, 40, 400)
     for i in range(n):
         r = random.Random(f'{ctx["seed"]}/mon-c05/{i}')
